@@ -1,5 +1,5 @@
----- MODULE MC_Core2 ----
+---- MODULE MC_Core3 ----
 EXTENDS BDDSpec
-N2 == <<"a", "b">>
+N3 == <<"a", "b", "c">>
 CoreActions == {"var", "ite", "drop", "gc", "swap", "dup", "dropgc"}
 ====
